@@ -97,7 +97,7 @@ impl<T: RealNumber, K: Kernel<T, Vec<T>>> Kernel<T, Vec<T>> for Counting<K> {
 /// are deterministic functions of that state, so a state seen twice inside one loop is a proof that the
 /// loop never exits (no budget, no clock, no false alarm short of a 64-bit digest collision).
 #[derive(Default)]
-struct CycleDetector {
+pub struct CycleDetector {
     armed: bool,
     tortoise: u64,
     power: u64,
@@ -109,7 +109,7 @@ impl CycleDetector {
         self.armed = false;
     }
     /// returns Some(cycle length) when the state repeats
-    fn step(&mut self, d: u64) -> Option<u64> {
+    pub fn step(&mut self, d: u64) -> Option<u64> {
         if !self.armed {
             self.armed = true;
             self.tortoise = d;
